@@ -132,6 +132,12 @@ func run(r *core.Run) {
 	r.Bound("reader_depths", readerDepthsFor(thorough))
 	r.Bound("reader_generators", len(readerGens))
 	r.Bound("reader_only_worker_stack_ceiling_bytes", readerStackCeiling)
+	// (c1'') self-containing values through every place the evaluator walks a
+	// value on its own (macro expansion stamping, quasiquote, macroexpand,
+	// error data, handler arguments, map keys/values, printing, binding ...)
+	r.Bound("evalwalk_values", len(walkValues))
+	r.Bound("evalwalk_contexts", len(walkContexts))
+	run1("evalwalk", auxData{}, "")
 	run1("reader-depth", auxData{}, "")
 	run1("reader-depth-load", auxData{}, "")
 	// (d) level 0: every callable x every V0 tuple
